@@ -3,7 +3,7 @@ import GMGProofs.Lemmas.CycleLoop
 /-!
 # Small concrete operator families on `Int`, used by the non-vacuity examples of C10 / C09s / C01 / C13
 -/
-namespace Cycle
+namespace MGCycle
 
 /-- an arbitrary, deliberately non-symmetric family: every operator distinguishes its arguments and its level -/
 def toyOps : Ops Int where
@@ -54,4 +54,4 @@ def toyNorm : NormOps Int Int where
 /-- a memory whose right-hand sides are `f l` and everything else is `junk` -/
 def toyMem (f : Nat → Int) (junk : Int) : Mem Int := fun r => if r.2 = Buf.rhs then f r.1 else junk
 
-end Cycle
+end MGCycle
